@@ -103,6 +103,7 @@ def handler_coverage_corpus():
     add("task-retry-then-ok", chain(("A", Task("f1", Retry=[{"ErrorEquals": ["E1"], "IntervalSeconds": 1, "MaxAttempts": 2}])), Z),
         workers={"f1": {"*": [["err", "E1", "x"], ["ok", 3]]}})
     add("task-timeout", chain(("A", Task("f1", TimeoutSeconds=5)), Z), workers={"f1": {"*": NONE}})
+    add("task-timeoutpath", chain(("A", Task("f1", TimeoutSecondsPath="$.t")), Z), workers={"f1": {"*": NONE}}, input={"t": 4})
     add("task-unroutable", chain(("A", Task("nosuchfn")), Z))
     add("task-badparams", chain(("A", Task("f1", Parameters={"x.$": "$.missing"})), Z), workers=w1)
     add("task-resultselector-fail", chain(("A", Task("f1", ResultSelector={"x.$": "$.missing"})), Z), workers=w1)
@@ -141,6 +142,9 @@ def handler_coverage_corpus():
     add("map-empty-end", chain(("M", Map(it))), workers=w1, input=[])
     add("map-maxconc", chain(("M", Map(it, MaxConcurrency=1)), Z), workers={"f1": {"*": [["echo"]]}}, input=[1, 2, 3])
     add("map-itemspath", chain(("M", Map(chain(("I", Pass())), ItemsPath="$.items", ItemSelector={"v.$": "$$.Map.Item.Value", "i.$": "$$.Map.Item.Index"})), Z), input={"items": [5, 6]})
+    add("map-empty-resultpath-fails", chain(("M", Map(it, ItemsPath="$.items", ResultPath="$.a.b")), Z), workers=w1, input={"a": 5, "items": []})
+    add("map-empty-resultpath-fails-caught", chain(("M", Map(it, ItemsPath="$.items", ResultPath="$.a.b", Catch=CATCH_ALL)), Z), workers=w1, input={"a": 5, "items": []})
+    add("map-empty-selector-fails", chain(("M", Map(it, ItemsPath="$.items", ResultSelector={"x.$": "States.Nope(1)"})), Z), workers=w1, input={"items": []})
     add("map-baditems", chain(("M", Map(it, ItemsPath="$.nope")), Z), workers=w1, input={})
     add("map-item-error", chain(("M", Map(it)), Z), workers={"f1": {"1": ERR(), "*": [["echo"]]}}, input=[1, 2])
     add("map-legacy-iterator", chain(("M", Map(chain(("I", Pass())), legacy=True, Parameters={"v.$": "$$.Map.Item.Value"})), Z), input=[7])
@@ -384,6 +388,15 @@ def seq_family(tier="quick"):
     out.append(multi("seq-unroutable-beside-blocked", {"m": {"definition": dt}, "n": {"definition": chain(("U", Task("nosuchfn")), Z)}},
                      [{"machine": "m", "name": "e1", "input": {"k": 1}}, {"machine": "n", "name": "e2", "input": {"k": 2}}],
                      workers={"f1": {"*": [["delay", ["ok", {"r": 1}]]]}}))
+    # a raw start event that carries the definition of a machine the store has never seen ("by value"): it is registered and run,
+    # and a later ordinary start of that machine finds it
+    dd = chain(("DA", Pass(Result="by-value", ResultPath="$.how")), ("DT", Task("f1", ResultPath="$.t")))
+    sc = scenario("seq-raw-start-with-definition", dt, workers={"f1": {"*": OK(1)}}, family="seq-raw-start-with-definition")
+    sc["starts"] = []
+    sc["script"] = [{"op": "raw", "arn": None, "body": json.dumps({"data": {"k": 1}, "context": {"StateMachine": {"Id": sm_arn("byvalue"), "Definition": dd}}})},
+                    {"op": "raw", "after_quiet": True, "body": json.dumps({"data": {"k": 2}, "context": {"StateMachine": {"Id": sm_arn("byvalue")}}})}]
+    sc["expect_outputs"] = [{"k": 1, "how": "by-value", "t": 1}, {"k": 2, "how": "by-value", "t": 1}]
+    out.append(sc)
     # a raw start event as an external client would publish it (no Execution fields)
     sc = scenario("seq-raw-start", dt, workers={"f1": {"*": OK(1)}}, family="seq-raw-start")
     sc["starts"] = []
